@@ -283,6 +283,7 @@ func jobsFor(prop, tier string) []job {
 		for _, d := range keyEmuScenarios(big, true) {
 			add(d, false, cap, "receiver")
 		}
+		add(keyEmuSubScenario(), false, cap, "receiver")
 	case "C02":
 		for _, m := range modes {
 			for _, d := range keyScenarios(m, big) {
@@ -336,6 +337,7 @@ func jobsFor(prop, tier string) []job {
 		for _, d := range keyEmuScenarios(big, false) {
 			add(d, false, cap, "keyemu")
 		}
+		add(keyEmuSubScenario(), false, cap, "keyemu")
 	}
 	return js
 }
